@@ -247,7 +247,7 @@ def run(tier):
     vlib.ensure_build(asan=False)
     chk = Check(PID, tier)
     seed = chk.seed
-    n_alias, n_ops, nsites, dyn_every = (300, 60, 10, 8) if tier == "quick" else (8000, 1500, 10, 10)
+    n_alias, n_ops, nsites, dyn_every = (300, 60, 10, 8) if tier == "quick" else (8000, 1500, 10, 12)
     words, bad = gen.usable_words(vlib.REPO)
     if bad or len(words) < 6:
         log("[C09] vocabulary clashes with the keyword table: %s" % bad)
